@@ -110,6 +110,29 @@ type TwoHandlers struct {
 	C  []MyChan
 	C2 map[string]MyChan
 }
+// defined (named) types over sized and unsigned integer kinds, and field-less structs
+type MyInt8 int8
+type MyUint16 uint16
+type MyUint uint
+type MyInt64 int64
+type MyBool bool
+type Empty struct{}
+type Levels struct {
+	L  MyInt8            `json:"l"`
+	P  MyUint16          `json:"p,omitempty"`
+	C  *MyUint           `json:"c"`
+	S  []MyInt8          `json:"s"`
+	M  map[string]MyUint `json:"m"`
+	B  MyBool            `json:"b"`
+	I6 MyInt64           `json:"i6"`
+}
+type Markers struct {
+	Set   map[string]struct{} `json:"set"`
+	Mark  struct{}            `json:"mark"`
+	E     Empty               `json:"e"`
+	PE    *Empty              `json:"pe"`
+	Elems []Empty             `json:"elems"`
+}
 type DescTag struct {
 	A int `json:"a" jsonschema:"the a"`
 }
@@ -125,6 +148,9 @@ var bank = map[string]reflect.Type{
 	"time.Time": reflect.TypeFor[time.Time](), "slog.Level": reflect.TypeFor[slog.Level](), "big.Int": reflect.TypeFor[big.Int](),
 	"big.Rat": reflect.TypeFor[big.Rat](), "big.Float": reflect.TypeFor[big.Float](),
 	"MyString": reflect.TypeFor[MyString](), "MyInt": reflect.TypeFor[MyInt](), "MyFloat": reflect.TypeFor[MyFloat](),
+	"MyInt8": reflect.TypeFor[MyInt8](), "MyUint16": reflect.TypeFor[MyUint16](), "MyUint": reflect.TypeFor[MyUint](),
+	"MyInt64": reflect.TypeFor[MyInt64](), "MyBool": reflect.TypeFor[MyBool](), "Empty": reflect.TypeFor[Empty](),
+	"Levels": reflect.TypeFor[Levels](), "Markers": reflect.TypeFor[Markers](),
 	"Handler": reflect.TypeFor[Handler](), "IntKeyed": reflect.TypeFor[IntKeyed](), "MyChan": reflect.TypeFor[MyChan](),
 	"TwoHandlers": reflect.TypeFor[TwoHandlers](),
 }
